@@ -28,6 +28,63 @@ import (
 
 func init() { register("C07", checkC07) }
 
+// structLitsVia is structLits plus the literals fn obtains from a constructor helper (a repo
+// function whose every return is the one literal of that type it builds): fields that the helper
+// fills from its parameters are reported with the arguments of fn's call.
+func structLitsVia(p *Prog, fn *ssa.Function, match func(types.Type) bool) []map[string]ssa.Value {
+	out := structLits(fn, match)
+	eachCall(fn, func(c ssa.CallInstruction) {
+		callee := c.Common().StaticCallee()
+		if callee == nil || callee == fn || callee.Blocks == nil || !p.InRepo(callee) || callee.Signature.Results().Len() != 1 {
+			return
+		}
+		rt := callee.Signature.Results().At(0).Type()
+		if pt, ok := rt.Underlying().(*types.Pointer); ok {
+			rt = pt.Elem()
+		}
+		if !match(rt) {
+			return
+		}
+		lits := structLits(callee, match)
+		if len(lits) != 1 {
+			return
+		}
+		al, _ := lits[0]["\x00pos"].(*ssa.Alloc)
+		onlyLit := true
+		eachInstr(callee, func(in ssa.Instruction) {
+			ret, ok := in.(*ssa.Return)
+			if !ok {
+				return
+			}
+			for _, o := range origins(ret.Results[0]) {
+				if o == ssa.Value(al) {
+					continue
+				}
+				if ld, ok := o.(*ssa.UnOp); ok && ld.X == ssa.Value(al) {
+					continue
+				}
+				onlyLit = false
+			}
+		})
+		if !onlyLit {
+			return
+		}
+		m := map[string]ssa.Value{}
+		for k, v := range lits[0] {
+			if par, ok := v.(*ssa.Parameter); ok && par.Parent() == callee {
+				for i, q := range callee.Params {
+					if q == par && i < len(c.Common().Args) {
+						v = c.Common().Args[i]
+					}
+				}
+			}
+			m[k] = v
+		}
+		out = append(out, m)
+	})
+	return out
+}
+
 // structLits returns, for every local/heap literal of struct type t built in fn,
 // the values stored into its fields.
 func structLits(fn *ssa.Function, match func(types.Type) bool) []map[string]ssa.Value {
@@ -336,6 +393,57 @@ func sessionSelection(p *Prog, r *Report, rule string) {
 	}
 	if nlit < 3 {
 		fatalf("rule %s: only %d session key/config literals found (3 confirmed by hand)", rule, nlit)
+	}
+	// (b') wherever a session is put into the session table, the key's (version, keyspace,
+	// compression) are the ones the session was connected with: a session filed under another
+	// version is handed frames of that version although its connections speak the other one
+	nput := 0
+	for _, m := range p.methodsOf(px) {
+		var keyLits, cfgLits []map[string]ssa.Value
+		keyLits = structLitsVia(p, m, func(t types.Type) bool { return typeIs(t, "proxy", "sessionKey") })
+		cfgLits = structLitsVia(p, m, func(t types.Type) bool { return typeIs(t, "proxycore", "SessionConfig") })
+		puts := 0
+		eachInstr(m, func(in ssa.Instruction) {
+			if mu, ok := in.(*ssa.MapUpdate); ok {
+				if mt, ok := mu.Map.Type().Underlying().(*types.Map); ok && typeIs(mt.Key(), "proxy", "sessionKey") {
+					puts++
+				}
+			}
+		})
+		if puts == 0 {
+			continue
+		}
+		nput += puts
+		var pb []string
+		if len(keyLits) == 1 && len(cfgLits) == 1 {
+			same := func(a, b ssa.Value) bool {
+				if a == nil || b == nil {
+					// absent on both sides, or absent on one and the zero value on the other
+					isZero := func(v ssa.Value) bool {
+						if v == nil {
+							return true
+						}
+						c, ok := v.(*ssa.Const)
+						return ok && (c.Value == nil || c.Value.ExactString() == "0" || c.Value.ExactString() == "\"\"")
+					}
+					return isZero(a) && isZero(b)
+				}
+				if a == b || sameValue(a, b) {
+					return true
+				}
+				pa, pb := fieldPath(a), fieldPath(b)
+				return pa == pb && !strings.HasPrefix(pa, "?") && !strings.HasPrefix(pa, "phi") && strings.Contains(pa, ".")
+			}
+			for _, pr := range [][2]string{{"version", "Version"}, {"keyspace", "Keyspace"}, {"compression", "Compression"}} {
+				if !same(keyLits[0][pr[0]], cfgLits[0][pr[1]]) {
+					pb = append(pb, fmt.Sprintf("the session is filed under %s %s but connected with %s: requests selected by that key run on connections of another %s", pr[0], valDesc(keyLits[0][pr[0]]), valDesc(cfgLits[0][pr[1]]), pr[0]))
+				}
+			}
+		}
+		r.check(len(pb) == 0, rule, "Proxy."+m.Name()+":table-put", p.Pos(m.Pos()), fmt.Sprintf("%d put(s)", puts), strings.Join(dedupe(pb), " || "))
+	}
+	if nput < 2 {
+		fatalf("rule %s: only %d writes to the session table found (2 confirmed by hand)", rule, nput)
 	}
 	// (c) connPool.connect: Handshake(config.Version) and COMPRESSION=config.Compression
 	pool := p.Named("proxycore", "connPool")
